@@ -53,7 +53,7 @@ def compare(rec, state, W, locks, integer, tol, tag, info):
     n = len(idx)
     if n == 0:
         return "all-busy"
-    if n <= 9:
+    if n <= 9 or (integer and n <= 17):
         per, P = oracle.matching_probs(as_exact(block, integer))
     else:
         per, P = oracle.matching_probs([[float(x) for x in r] for r in block])
@@ -252,6 +252,53 @@ def body_rand(rec, c):
                 rec.cls("rand:quick-vs-permanent-compared")
 
 
+# ---------------------------------------------------- many ensembles: a small high-acceptance block beside a big uniform block
+def large_cases():
+    """13-16 idle paths whose weights are constant over the ensembles they reach (ordinary shooting ensembles, each row with its
+    own constant), optionally preceded by 1-3 wire-fencing ensembles with unequal weights confined to their own block. Every code
+    path taken here is an exact one (global equal-weight shortcut, or block split + quick_prob / permanent_prob)."""
+    @st.composite
+    def case(draw):
+        b = draw(st.sampled_from([0, 1, 2, 2, 3]))
+        m = draw(st.integers(13, 16))
+        k = b + m
+        kind = draw(st.sampled_from(["int", "float"]))
+        wst = st.integers(1, 50) if kind == "int" else st.floats(0.01, 1e4, allow_nan=False) | st.sampled_from([1.0, 2.0])
+        rows = []
+        for r in range(b):  # reach r+1..b, unequal weights
+            reach = draw(st.integers(r + 1, b))
+            rows.append([float(draw(wst)) for _ in range(reach)] + [0.0] * (k - reach))
+        for r in range(m):  # reach beyond the small block, one constant per row
+            reach = draw(st.integers(b + r + 1, k))
+            const = float(draw(st.sampled_from([1, 1, 1, 2, 5]))) if draw(st.booleans()) else 1.0
+            rows.append([const] * reach + [0.0] * (k - reach))
+        locks = [draw(st.sampled_from([0, 0, 0, 1]))] + [0] * k + [1]
+        if draw(st.booleans()):
+            locks[draw(st.integers(1, k))] = 1
+        slots = list(range(k))
+        for _ in range(draw(st.sampled_from([0, 1, 2]))):
+            a, c = draw(st.integers(0, k - 1)), draw(st.integers(0, k - 1))
+            slots[a], slots[c] = slots[c], slots[a]
+        return {"k": k, "b": b, "kind": kind, "rows": rows, "slots": slots, "locks": locks}
+
+    return case()
+
+
+def body_large(rec, c):
+    state = new_state()
+    k = c["k"]
+    W = build_W(k, c["rows"], c["slots"])
+    locks = c["locks"]
+    info = f"k={k} small-block={c['b']} kind={c['kind']} busy={[i for i in range(k + 1) if locks[i]]}"
+    res = compare(rec, state, W, locks, c["kind"] == "int", 1e-9, "large", info)
+    if res in ("unreachable", "all-busy"):
+        rec.case(key=None, nontrivial=False, classes=["large:" + res])
+        return
+    rec.check(state._random_count == 0, "large:monte-carlo-used-where-an-exact-path-applies", f"{info} rows={c['rows']}")
+    rec.case(key=c, nontrivial=True, classes=["large", f"large:small-block={c['b']}", f"large:idle={sum(1 for x in locks if not x)}"],
+             sample={"k": k, "b": c["b"], "locks": locks, "first_rows": c["rows"][:4]} if len(rec.samples) < 1 else None)
+
+
 # ---------------------------------------------------- big blocks (Monte Carlo)
 def _mc_worker(job):
     pid, seed = job
@@ -290,7 +337,8 @@ def run(ctx):
         "ensembles (ghost always busy), every distinct arrangement of the plus rows over plus slots (k<=4; sampled for k>=5), kept iff "
         "the idle block has perm>0 (others are unreachable and counted); (b) Hypothesis matrices k<=11 with sh/wf column patterns, "
         "integer (1..1e4, x2) and real (1e-3..1e6) high-acceptance weights, busy subsets, row arrangements, plus row-rescaling and direct "
-        "permanent_prob/quick_prob comparisons; (c, thorough) blocks >12 (Monte-Carlo path): structure + loose band only. "
+        "permanent_prob/quick_prob comparisons; (b') 13-16 idle paths with row-constant weights beside a 0-3 path high-acceptance block "
+        "(exact code paths: must agree to 1e-9 and must not use the Monte-Carlo routine); (c, thorough) blocks >12 (Monte-Carlo path): structure + loose band only. "
         "Oracle: independent subset-DP permanent (exact ints/Fractions up to 9x9, float DP without cancellation beyond). "
         "Non-trivial: >=2 idle plus rows with different weight rows, or >=1 busy real ensemble. Distinct = digest of (W, locks)."
     )
@@ -304,6 +352,7 @@ def run(ctx):
         ctx.exhaustive = bool(complete) and False  # the run as a whole also contains sampled parts
         ctx.note("exhaustive_part_complete", bool(complete))
     run_property(ctx, "random", rand_cases, body_rand, ctx.pick(2000, 20000))
+    run_property(ctx, "large", large_cases, body_large, ctx.pick(64, 640), shards=ctx.procs, shrink=not ctx.quick)
     if not ctx.quick and (not getattr(ctx, "part", None) or ctx.part == "mc"):
         for r in pmap(ctx, _mc_worker, [(ctx.pid, derive_seed(ctx.seed, "mc", i)) for i in range(16)]):
             ctx.merge(r)
@@ -315,6 +364,8 @@ def replay(ctx, data):
             compare(ctx, new_state(), np.array(data["W"]), data["locks"], data["integer"], data["tol"], "exh", "replay")
         elif data["part"] == "random":
             body_rand(ctx, data["case"])
+        elif data["part"] == "large":
+            body_large(ctx, data["case"])
         elif data["part"] == "mc":
             ctx.merge(_mc_worker((ctx.pid, data["seed"])))
     except Violation as v:
